@@ -218,6 +218,14 @@ def _commit_assigns(ctx):
         unp = ctx.fold.get_attr(mod, cls, 'UNPACKABLES')
         members = ctx.repo.class_members(ctx.repo.cls(f"{mod}:{cls}"))
         miss = [u for u in unp if u not in members]
+        ci_ = ctx.repo.cls(f"{mod}:{cls}")
+        dynamic = any(isinstance(c, ast.Call) and dotted(c.func) == 'setattr' and len(c.args) >= 2
+                      and norm(c.args[0]) == 'self' and not isinstance(c.args[1], ast.Constant)
+                      for m_ in ci_.methods.values() for c in ast.walk(m_.node))
+        if miss and dynamic:
+            ctx.undecided('TBL', f"{cls}.UNPACKABLES are attributes of {cls}",
+                          f"{cls} creates attributes with setattr(self, <name>, ...): membership of {miss} is not decided")
+            continue
         ctx.check(not miss, 'TBL', f"{cls}.UNPACKABLES are attributes of {cls}",
                   detail_bad=f"not attributes: {miss}", key=f"TBL|{cls}.UNPACKABLES|members")
     unp = set(ctx.fold.get_attr('tract_parse', 'TractParser', 'UNPACKABLES'))
